@@ -316,8 +316,15 @@ class Interp(object):
     def ex_BoolOp(self, e):
         ctx = self.ctx
         if ctx.spec_mode:
-            vals = [self.ev(x) for x in e.values]
-            ts = [truth(ctx, v) for v in vals]
+            ts = []
+            for x in e.values:
+                t = z3.simplify(truth(ctx, self.ev(x)))
+                # concrete short-circuit keeps specifications total
+                if isinstance(e.op, ast.And) and z3.is_false(t):
+                    return VBool(False)
+                if isinstance(e.op, ast.Or) and z3.is_true(t):
+                    return VBool(True)
+                ts.append(t)
             if isinstance(e.op, ast.And):
                 return VBool(z3.And(ts))
             return VBool(z3.Or(ts))
@@ -453,6 +460,14 @@ class Interp(object):
                 return self.ctx.old_vals[id(e)]
             except KeyError:
                 raise Unsupported('old() outside a post-condition')
+        if self.ctx.spec_mode and isinstance(e.func, ast.Name) and \
+                e.func.id == 'implies' and len(e.args) == 2:
+            # lazy: the consequent is not evaluated under a false antecedent
+            a0 = truth(self.ctx, self.ev(e.args[0]))
+            a0 = z3.simplify(a0)
+            if z3.is_false(a0):
+                return VBool(True)
+            return VBool(z3.Implies(a0, truth(self.ctx, self.ev(e.args[1]))))
         fn = self.ev(e.func)
         args = []
         for a in e.args:
